@@ -92,6 +92,15 @@ func (t *Trimmer) markService(svc *parser.Service, ast *parser.Thrift, filename 
 						break
 					}
 				}
+			} else if len(t.trimMethods) == 0 {
+				// the base service lives in the same file: in an included
+				// file nothing else marks it
+				for _, service := range ast.Services {
+					if service.Name == svc.Extends {
+						t.markService(service, ast, filename)
+						break
+					}
+				}
 			}
 		}
 	}
